@@ -478,16 +478,16 @@ func c09Invalid(r *rand.Rand, start map[string]any) Case {
 	var fail []string
 	p := toPath([]string{"a"})
 	objs := map[string]*patch.OpObj{
-		"nil operation object": nil,
-		"operation without a path":      {Op: patch.OpAdd, Value: dom.LeafNode(1)},
-		"unknown operation name":        {Op: patch.Op("merge"), Path: p, Value: dom.LeafNode(1)},
-		"empty operation name":          {Path: p, Value: dom.LeafNode(1)},
-		"operation name in upper case":  {Op: patch.Op("ADD"), Path: p, Value: dom.LeafNode(1)},
-		"move without from":             {Op: patch.OpMove, Path: p},
-		"copy without from":             {Op: patch.OpCopy, Path: p},
-		"add without value":             {Op: patch.OpAdd, Path: p},
-		"replace without value":         {Op: patch.OpReplace, Path: p},
-		"test without value":            {Op: patch.OpTest, Path: p},
+		"nil operation object":         nil,
+		"operation without a path":     {Op: patch.OpAdd, Value: dom.LeafNode(1)},
+		"unknown operation name":       {Op: patch.Op("merge"), Path: p, Value: dom.LeafNode(1)},
+		"empty operation name":         {Path: p, Value: dom.LeafNode(1)},
+		"operation name in upper case": {Op: patch.Op("ADD"), Path: p, Value: dom.LeafNode(1)},
+		"move without from":            {Op: patch.OpMove, Path: p},
+		"copy without from":            {Op: patch.OpCopy, Path: p},
+		"add without value":            {Op: patch.OpAdd, Path: p},
+		"replace without value":        {Op: patch.OpReplace, Path: p},
+		"test without value":           {Op: patch.OpTest, Path: p},
 	}
 	for _, name := range sortedKeys(objs) {
 		var err error
@@ -563,7 +563,7 @@ func c09CopyEdit(r *rand.Rand, start map[string]any, o genOpts) Case {
 func init() {
 	register(&Prop{
 		ID:   "C09",
-		Rule: "sequences of 1-12 JSON Patch operations (add, remove, replace, move, copy, test; value/from occasionally missing) on one generated document; pointers aimed at existing locations, sibling keys, index +-1/len/len+1, non-numeric / negative / non-canonical tokens on lists, scalar parents, moves into own descendants and onto themselves (incl. list items of every kind moved or copied beneath themselves, whose right-hand neighbour would slide into their place), all-digit tokens beyond the machine word, moves under a sibling whose name starts with the source's name; after EVERY step: status and whole document vs an RFC 6902 reference interpreter over plain values (Go) and vs the Coq model of patch.Do and the Coq RFC interpreter; a failing step must leave the document as it was; copy-edit sequences (copy a composite, edit inside the copy, test the source). Non-trivial: a failing step after a succeeding one. Distinct by Gallina term. Every second pointer reaches patch.Do as RFC 6901 text parsed by patch.ParsePath; an eighth of the documents use non-ASCII member names. Half of the patched documents are built by the decoder (shared null leaf), some hold lists with several nulls. Lists of 9, 10, 12 and 20 items. A sixth of the cases (from-diff): the modifications of Diff(L, R) — R derived from L, or L from R — each turned into an operation object by xform.DiffMod2PatchOp (Add -> add, Change -> replace, Delete -> remove; pointer = the steps of the path read independently; value = the leaf) and applied to R step by step against the reference and the model; every 64th case: operation objects that are none (nil, no path, unknown / empty / upper-case name, missing from or value, nil target): an error, no panic, document untouched.",
+		Rule: "sequences of 1-12 JSON Patch operations (add, remove, replace, move, copy, test; value/from occasionally missing) on one generated document; pointers aimed at existing locations, sibling keys, index +-1/len/len+1, non-numeric / negative / non-canonical tokens on lists, scalar parents, moves into own descendants and onto themselves (incl. list items of every kind moved or copied beneath themselves, whose right-hand neighbour would slide into their place), all-digit tokens beyond the machine word, moves under a sibling whose name starts with the source's name; after EVERY step: status and whole document vs an RFC 6902 reference interpreter over plain values (Go) and vs the Coq model of patch.Do and the Coq RFC interpreter; a failing step must leave the document as it was; copy-edit sequences (copy a composite, edit inside the copy, test the source). Non-trivial: a failing step after a succeeding one. Distinct by Gallina term. Every second pointer reaches patch.Do as RFC 6901 text parsed by patch.ParsePath; an eighth of the documents use non-ASCII member names, another eighth names with the escaped characters / and ~ (also as the last token). Half of the patched documents are built by the decoder (shared null leaf), some hold lists with several nulls. Lists of 9, 10, 12 and 20 items. A sixth of the cases (from-diff): the modifications of Diff(L, R) — R derived from L, or L from R — each turned into an operation object by xform.DiffMod2PatchOp (Add -> add, Change -> replace, Delete -> remove; pointer = the steps of the path read independently; value = the leaf) and applied to R step by step against the reference and the model; every 64th case: operation objects that are none (nil, no path, unknown / empty / upper-case name, missing from or value, nil target): an error, no panic, document untouched.",
 		Corpus: func() []Case {
 			d := map[string]any{"a": []any{1, 2}, "s": "x", "c": map[string]any{"k": []any{map[string]any{"v": 1}, 2}}}
 			v := func(x any) rop { return rop{Val: x, HasVal: true} }
@@ -588,6 +588,8 @@ func init() {
 			o.keys = []string{"a", "b", "c", "k1", "0", "12"}
 			if r.Intn(8) == 0 { // member names are arbitrary text
 				o.keys = []string{"a", "größe", "名前", "k1", "0", "é"}
+			} else if r.Intn(7) == 0 { // ... including the two characters a pointer escapes
+				o.keys = []string{"a", "a/b", "m~n", "k1", "~", "/", "x~1y", "v2/"}
 			}
 			o.maxDepth = 3
 			start := genDoc(r, o)
@@ -643,8 +645,14 @@ func init() {
 				start = map[string]any{"root": map[string]any{"list": items}, "s": "x"}
 				i := strconv.Itoa(r.Intn(n))
 				from := []string{"root", "list", i}
-				ops := []rop{{Op: []string{"move", "copy"}[r.Intn(2)], From: from, HasFrom: true,
-					Path: append(append([]string{}, from...), []string{"x", "0", "y", "1", "-"}[r.Intn(5)])}}
+				// (the "-" token is outside the property: only under move, where the prefix rule decides before it is looked at)
+				mc := []string{"move", "copy"}[r.Intn(2)]
+				tails := []string{"x", "0", "y", "1", "-"}
+				if mc == "copy" {
+					tails = tails[:4]
+				}
+				ops := []rop{{Op: mc, From: from, HasFrom: true,
+					Path: append(append([]string{}, from...), tails[r.Intn(len(tails))])}}
 				ops = append(ops, rop{Op: "test", Path: []string{"s"}, Val: "x", HasVal: true})
 				return c09Run(r, start, ops, nil, len(ops))
 			}
